@@ -247,9 +247,38 @@ class SymExec:
                     self.assign(s.target, C(x), s)
                     self.block(s.body)
                 return
-            raise Unsupported(s)
+            self.loop_approx(s, it)
+        elif isinstance(s, ast.For) and not s.orelse and isinstance(s.target, (ast.Name, ast.Tuple)):
+            self.loop_approx(s, self.expr(s.iter))
         else:
             raise Unsupported(s)
+
+    def loop_approx(self, s, it):
+        """a loop over something that is not a literal: its body runs zero or more times.  The names it assigns become opaque (before, so that
+        the body sees a value of any iteration, and after); the body is walked once under an opaque `the loop is entered` guard, so that its
+        events (stores, raises, returns, calls) are recorded with what they read.  Nothing numeric is claimed about what the loop computes."""
+        assigned = set()
+        for b in s.body:
+            for n in ast.walk(b):
+                if isinstance(n, ast.Name) and isinstance(n.ctx, (ast.Store, ast.Del)):
+                    assigned.add(n.id)
+        for n in ast.walk(s.target):
+            if isinstance(n, ast.Name):
+                assigned.add(n.id)
+        ln = getattr(s, 'lineno', 0)
+        def havoc(tag):
+            for nm in sorted(assigned):
+                self.state.env[nm] = ('opaque', f"loop:{tag}:{nm}", ln, 0)
+        base = self.state
+        havoc('any')
+        inner = base.copy(); inner.guard = base.guard + (('opaque', 'loop-entered', ln, 0), ('call', ('name', 'iter'), (it,), ()))
+        self.state = inner
+        for n in ast.walk(s.target):
+            if isinstance(n, ast.Name):
+                self.state.env[n.id] = ('opaque', f"loop:item:{n.id}", ln, 0)
+        self.block(s.body)
+        self.state = base
+        havoc('after')
 
     def do_if(self, s):
         c = self.expr(s.test)
@@ -295,6 +324,12 @@ class SymExec:
             if v[0] in ('tuple', 'list') and len(v[1]) == len(tgt.elts):
                 for e, x in zip(tgt.elts, v[1]):
                     self.assign(e, x, node)
+            elif v[0] == 'sub' and v[2][0] == 'slice' and (v[2][1] == NONE or (is_const(v[2][1]) and isinstance(v[2][1][1], int) and v[2][1][1] >= 0)) and v[2][3] == NONE \
+                    and is_const(v[2][2]) and isinstance(v[2][2][1], int) and v[2][2][1] - (0 if v[2][1] == NONE else v[2][1][1]) == len(tgt.elts):
+                # a, b = x[lo:lo+2]  (the unpacking succeeds only when the slice has that many elements): element i is x[lo+i]
+                lo = 0 if v[2][1] == NONE else v[2][1][1]
+                for i, e in enumerate(tgt.elts):
+                    self.assign(e, ('sub', v[1], C(lo + i)), node)
             else:
                 for i, e in enumerate(tgt.elts):
                     self.assign(e, ('tupidx', v, i), node)
@@ -612,4 +647,20 @@ def conj(guard):
             out.extend(conj(g[2]))
         else:
             out.append(g)
+    return out
+
+
+def split_ite_events(events, kinds=('return',)):
+    """`return A if C else B` and `if C: return A / return B` are the same decision: events of the given kinds whose value is a conditional
+    expression are split into one event per arm, the condition joining the guard"""
+    out = []
+    work = list(events)
+    while work:
+        e = work.pop(0)
+        if e[0] in kinds and isinstance(e[2], tuple) and e[2] and e[2][0] == 'ite':
+            c, a, b = e[2][1], e[2][2], e[2][3]
+            work.insert(0, (e[0], tuple(e[1]) + (mk_not(c),), b) + tuple(e[3:]))
+            work.insert(0, (e[0], tuple(e[1]) + (c,), a) + tuple(e[3:]))
+        else:
+            out.append(e)
     return out
